@@ -7,9 +7,10 @@ package c19
 //	pd     hcldec.PartialDecode(first half of the spec) + hcldec.Decode(remainder, second half),
 //	       at the top level or on the bodies of the blocks 1-2 levels down
 //	walk   generic two-stage walker: at EVERY block level body.PartialContent(subset)
-//	       followed by remain.Content / PartialContent (rest) - or JustAttributes of the
-//	       remainder for bodies that hold only attributes -, evaluating the attribute
+//	       followed by remain.Content / PartialContent (rest), evaluating the attribute
 //	       expressions of both stages
+//	just   the same walker reading the remainder of every attribute-only body with
+//	       JustAttributes (what a gohcl map / hcl.Attributes remain field does)
 //	remain gohcl.DecodeBody into struct types whose second half sits in a struct
 //	       field tagged `yaotl:",remain"`
 //	later  the same with an hcl.Body remain field that is decoded by a second
@@ -41,13 +42,17 @@ type styleRes struct {
 	goVal reflect.Value // remain, later (joined back into the plain struct type)
 	isGo  bool
 	cross string // non-empty: the style disagrees with the complete decode of the same body
+	// just style: attributes taken in the first stage that the remainder, read in
+	// free-attributes mode, reports again
+	reappear int
+	reNames  []string
 }
 
 type styleEnv struct {
 	schema *cfggen.BodyS
 	plan   *cfggen.SplitP
 	depth  int  // pd: how many block levels down the spec is cut
-	expand bool // the body is wrapped in dynblock.Expand
+	just   bool // the plan reads some remainder with JustAttributes
 	later  bool // gohcl: the remainder is kept as an hcl.Body and decoded by a second call
 	goType reflect.Type
 	joiner cfggen.Joiner
@@ -57,8 +62,11 @@ func newStyleEnv(c *CaseA) *styleEnv {
 	if c.Plan == nil {
 		return nil
 	}
+	pl := map[string]bool{}
+	planLabels(&c.Schema, c.Plan, 0, pl)
 	return &styleEnv{
 		schema: &c.Schema, plan: c.Plan, depth: c.PDDepth,
+		just:   pl["two-stage:remainder-just-attributes"],
 		later:  c.GoLater,
 		goType: cfggen.SplitStructType(&c.Schema, 0, c.Plan, c.GoLater),
 	}
@@ -67,11 +75,13 @@ func newStyleEnv(c *CaseA) *styleEnv {
 // ---------------------------------------------------------------- walker
 
 type walker struct {
-	ctx    *hcl.EvalContext
-	expand bool
-	err    bool
-	diags  []string
-	cross  string
+	ctx      *hcl.EvalContext
+	just     bool // honour the plan's JustAttributes mode for remainders
+	err      bool
+	diags    []string
+	cross    string
+	reappear int
+	reNames  []string
 }
 
 func (w *walker) note(where string, d hcl.Diagnostics) {
@@ -171,14 +181,20 @@ func (w *walker) content(where string, body hcl.Body, s *cfggen.BodyS, p *cfggen
 	}
 	rest := func(name string) bool { return !p.First(name) }
 	switch {
-	case p.Just && len(s.Blocks) == 0 && !w.expand:
-		// (dynblock documents JustAttributes as a plain pass-through to the wrapped
-		// body, so this mode is for bodies that are not wrapped)
+	case p.Just && len(s.Blocks) == 0 && w.just:
 		ja, d := remain.JustAttributes()
 		w.note(where+"<remainder-just-attributes>", d)
 		for n, a := range ja {
-			if s.Attr(n) == nil || !rest(n) {
+			if s.Attr(n) == nil {
 				w.fail(where+"<remainder-just-attributes>", "unexpected attribute in the remainder")
+				continue
+			}
+			if !rest(n) {
+				// taken in the first stage, so not part of what remains
+				w.reappear++
+				if len(w.reNames) < 4 {
+					w.reNames = append(w.reNames, where+"."+n)
+				}
 				continue
 			}
 			attrs[n] = a
@@ -340,29 +356,36 @@ func decodeRests(ctx *hcl.EvalContext, v reflect.Value, diags *hcl.Diagnostics) 
 
 // ---------------------------------------------------------------- all styles
 
-func decodeStyles(env *styleEnv, body hcl.Body, ctx *hcl.EvalContext, expand bool) []styleRes {
+func decodeStyles(env *styleEnv, body hcl.Body, ctx *hcl.EvalContext) (out []styleRes, just *styleRes) {
 	if env == nil {
-		return nil
+		return nil, nil
 	}
-	var out []styleRes
 
 	// pd
 	{
-		w := &walker{ctx: ctx, expand: expand}
+		w := &walker{ctx: ctx}
 		v := w.body("", body, env.schema, env.plan, env.depth)
 		out = append(out, styleRes{name: fmt.Sprintf("hcldec-partial-then-remainder|depth=%d", env.depth), err: w.err, diag: fmt.Sprint(w.diags), val: v, cross: w.cross})
 	}
 	// walk: two stages at every level, against the one-stage walk of the same body
 	{
-		w := &walker{ctx: ctx, expand: expand}
+		w := &walker{ctx: ctx}
 		v := w.body("", body, env.schema, env.plan, -1)
 		r := styleRes{name: "partial-content-then-remainder", err: w.err, diag: fmt.Sprint(w.diags), val: v}
-		w1 := &walker{ctx: ctx, expand: expand}
+		w1 := &walker{ctx: ctx}
 		v1 := w1.body("", body, env.schema, nil, -1)
 		if !w.err && !w1.err && !cfggen.EqualValue(v, v1) {
 			r.cross = fmt.Sprintf("two-stage walk gives\n%#v\none-stage walk of the same body gives\n%#v", v, v1)
 		}
 		out = append(out, r)
+		if env.just {
+			wj := &walker{ctx: ctx, just: true}
+			vj := wj.body("", body, env.schema, env.plan, -1)
+			just = &styleRes{name: "partial-content-then-just-attributes", err: wj.err, diag: fmt.Sprint(wj.diags), val: vj, reappear: wj.reappear, reNames: wj.reNames}
+			if !wj.err && !w1.err && !cfggen.EqualValue(vj, v1) {
+				just.cross = fmt.Sprintf("two-stage walk (remainders of attribute-only bodies read with JustAttributes) gives\n%#v\none-stage walk of the same body gives\n%#v", vj, v1)
+			}
+		}
 	}
 	// gohcl remain / later
 	{
@@ -382,7 +405,7 @@ func decodeStyles(env *styleEnv, body hcl.Body, ctx *hcl.EvalContext, expand boo
 		r.goVal = env.joiner.Join(env.schema, 0, env.plan, ptr.Elem())
 		out = append(out, r)
 	}
-	return out
+	return out, just
 }
 
 // crossStyle: where both are defined (no errors), a style's result is the result of
@@ -450,4 +473,24 @@ func planLabels(s *cfggen.BodyS, p *cfggen.SplitP, depth int, out map[string]boo
 			planLabels(s.Blocks[i].Body, p.SubOf(i), depth+1, out)
 		}
 	}
+}
+
+// sameJust compares the just style of a form (b) with that of the reference (a).
+func sameJust(a, b *styleRes) (string, string) {
+	if a == nil || b == nil {
+		return "", ""
+	}
+	if (a.reappear > 0) != (b.reappear > 0) {
+		return "consumed-attribute-reappears", fmt.Sprintf("attributes taken in the first stage that the remainder's JustAttributes reports again: reference %d %q, form %d %q", a.reappear, a.reNames, b.reappear, b.reNames)
+	}
+	if a.err != b.err {
+		return fmt.Sprintf("errors-differ|ref-errors=%v", a.err), fmt.Sprintf("errors=%v (%s) vs errors=%v (%s)", a.err, clipS(a.diag, 400), b.err, clipS(b.diag, 600))
+	}
+	if !a.err && !cfggen.EqualValue(a.val, b.val) {
+		return "value-differs", fmt.Sprintf("%#v\nvs\n%#v", a.val, b.val)
+	}
+	if b.cross != "" {
+		return "differs-from-complete-decode", b.cross
+	}
+	return "", ""
 }
